@@ -143,24 +143,33 @@ def _respell(v, o, present, hex_=False):
 
 
 def _collapse(v, first=None):
-    """what the == -keyed memo table does inside one value: every number is replaced by the first
-    number (in traversal order) that is == to it"""
+    """what the == -keyed memo table does inside one value: an object that is == to a table key visited earlier
+    (numbers of another type, hashable tuples / frozensets; bools at top level are BoolObj and alias nothing)
+    is read as that earlier object"""
     first = {} if first is None else first
-    if isinstance(v, (bool, int, float)):
-        return first.setdefault(v, v)
+    k = base._BoolKey(v) if isinstance(v, bool) else v
+    hashable = True
+    try:
+        if k in first:
+            return first[k]
+    except TypeError:
+        hashable = False
     if isinstance(v, list):
-        return [_collapse(x, first) for x in v]
-    if isinstance(v, tuple):
-        return tuple(_collapse(x, first) for x in v)
-    if isinstance(v, dict):
-        out = {}
-        for k, x in v.items():
-            k2 = _collapse(k, first)
-            out[k2] = _collapse(x, first)
-        return out
-    if isinstance(v, (set, frozenset)):
-        return type(v)([_collapse(x, first) for x in v])
-    return v
+        r = [_collapse(x, first) for x in v]
+    elif isinstance(v, tuple):
+        r = tuple(_collapse(x, first) for x in v)
+    elif isinstance(v, dict):
+        r = {}
+        for kk, x in v.items():
+            k2 = _collapse(kk, first)
+            r[k2] = _collapse(x, first)
+    elif isinstance(v, (set, frozenset)):
+        r = type(v)([_collapse(x, first) for x in v])
+    else:
+        r = v
+    if hashable:
+        first[k] = r
+    return r
 
 
 def _k1(case):
@@ -203,7 +212,7 @@ def _k2(case):
     number is read as the first == number visited before it in the same value"""
     o = tuple(case["opts"])
     a, b = from_repr(case["value"]), from_repr(case["other"])
-    if not (values.contains_alias(a) or values.contains_alias(b)):
+    if not (base.memo_alias(a) or base.memo_alias(b)):
         return False
     return canon_mode(_collapse(a), o) == canon_mode(_collapse(b), o)
 
